@@ -100,12 +100,14 @@ impl Scenario for KeepAlive {
         let mut acts = vec![Act::Tick];
         if v.life[0] == Life::Live {
             acts.push(Act::Send(0, "PONG :LALAL".into()));
+            // "PONG with any token": another token, and the two-parameter form
+            acts.push(Act::Send(0, "PONG :another".into()));
             acts.push(Act::Send(0, "PING tok".into()));
             // other traffic: a capability request after registration (no CAP END is owed)
             acts.push(Act::Send(0, "CAP REQ :multi-prefix".into()));
             if self.full {
                 acts.push(Act::Send(0, "CAP LS 302".into()));
-                acts.push(Act::Send(0, "PONG wrongtoken".into()));
+                acts.push(Act::Send(0, "PONG irc.irc :LALAL".into()));
                 acts.push(Act::Send(0, "LUSERS".into()));
             }
         }
